@@ -277,30 +277,65 @@ func c10ReadPath(w *World, r *Report) {
 			callee string
 			lit    Lit
 		}{{"SyncRead", LBool("$2")}, {"StaleRead", LNotBool("$2")}} {
-			found := false
 			isCall := func(in ssa.Instruction) bool {
 				c := plainCall(in)
 				return c != nil && c.IsInvoke() && c.Method.Name() == what.callee
 			}
-			eachInstr(inst, func(in ssa.Instruction) {
-				if isCall(in) {
-					found = true
-				}
-			})
-			if !found {
-				ob.Violate("read-call-missing/"+what.callee, inst.Pos(), "the read helper never calls "+what.callee)
-				continue
-			}
-			wk := &Walk{Target: isCall, EdgeOK: func(b *ssa.BasicBlock, k int) bool {
+			edgeOK := func(b *ssa.BasicBlock, k int) bool {
 				for _, l := range ctx.EdgeLits(b, k) {
 					if l.Implies(what.lit) {
 						return false
 					}
 				}
 				return true
-			}}
-			if p := wk.Find(entry(inst)); p != nil {
-				ob.Violate("read-path/"+what.callee, instrPos(p.Hit), what.callee+" is reachable without the linearizable flag being "+what.lit.String(), w.PathString(p)...)
+			}
+			found := false
+			// the call sits in the helper itself, or in a closure the helper creates and runs once
+			// (directly, or selected through a phi whose delivering edge carries the flag)
+			for _, f := range withClosures(inst) {
+				has := false
+				eachInstr(f, func(in ssa.Instruction) {
+					if isCall(in) {
+						has = true
+					}
+				})
+				if !has {
+					continue
+				}
+				found = true
+				if f == inst {
+					wk := &Walk{Target: isCall, EdgeOK: edgeOK}
+					if p := wk.Find(entry(inst)); p != nil {
+						ob.Violate("read-path/"+what.callee, instrPos(p.Hit), what.callee+" is reachable without the linearizable flag being "+what.lit.String(), w.PathString(p)...)
+					}
+					continue
+				}
+				mc := makeClosureOf(f)
+				if mc == nil || f.Parent() != inst {
+					ob.Violate("read-path/"+what.callee, f.Pos(), what.callee+" is called in a nested closure whose activation is not resolved")
+					continue
+				}
+				uses, ok := closureActivations(mc)
+				if !ok || len(uses) == 0 {
+					ob.Violate("read-path/"+what.callee, mc.Pos(), what.callee+" is called in a closure that escapes the read helper (stored or passed on): its activation is not resolved")
+					continue
+				}
+				for _, u := range uses {
+					if u.Pred != nil {
+						if !edgeOnlyUnder(ctx, u.Pred, u.Phi.Block(), what.lit) {
+							ob.Violate("read-path/"+what.callee, u.Call.Pos(), "the closure calling "+what.callee+" is selected without the linearizable flag being "+what.lit.String())
+						}
+						continue
+					}
+					tgt := u.Call
+					wk := &Walk{Target: func(in ssa.Instruction) bool { return in == tgt.(ssa.Instruction) }, EdgeOK: edgeOK}
+					if p := wk.Find(entry(inst)); p != nil {
+						ob.Violate("read-path/"+what.callee, instrPos(p.Hit), "the closure calling "+what.callee+" runs without the linearizable flag being "+what.lit.String(), w.PathString(p)...)
+					}
+				}
+			}
+			if !found {
+				ob.Violate("read-call-missing/"+what.callee, inst.Pos(), "the read helper never calls "+what.callee)
 			}
 		}
 	}
